@@ -206,9 +206,12 @@ func fromAST(x ast.Expr) (*cx, error) {
 			}
 			return &cx{K: "rune", Z: big.NewInt(int64(r)), Lit: a.Value}, nil
 		case token.FLOAT:
-			q, ok := new(big.Rat).SetString(a.Value)
-			if !ok {
-				return nil, fmt.Errorf("float literal %s", a.Value)
+			var q *big.Rat
+			switch v := constant.Val(constant.MakeFromLiteral(a.Value, token.FLOAT, 0)).(type) {
+			case *big.Rat:
+				q = v
+			default:
+				return nil, fmt.Errorf("float literal %s leaves the exact regime of go/constant", a.Value)
 			}
 			return &cx{K: "float", Q: q, Lit: a.Value}, nil
 		case token.STRING:
@@ -282,6 +285,7 @@ type c03prog struct {
 	Paren  []bool // group printed as const ( ... )
 	VarT   string
 	E      *cx
+	Hide   map[int]bool // declared names that are not printed
 }
 
 func (p *c03prog) shown() []int {
@@ -289,7 +293,7 @@ func (p *c03prog) shown() []int {
 	for _, g := range p.Groups {
 		for _, s := range g {
 			for _, n := range s.Names {
-				if n != 0 {
+				if n != 0 && !p.Hide[n] {
 					l = append(l, n)
 				}
 			}
@@ -561,6 +565,7 @@ type c03progModel struct {
 	Groups [][]c03spec
 	VarT   string
 	E      *cx
+	Shown  []int // the constants printed, in order (constant declarations)
 	// ast expressions, parallel to Groups/E, for the region analysis
 	GroupX [][][]ast.Expr
 	EX     ast.Expr
@@ -727,6 +732,11 @@ func c03Reference(src string) (*c03ref, error) {
 		case *ast.ExprStmt:
 			call := x.X.(*ast.CallExpr)
 			printed = append(printed, call.Args[1])
+			if id, ok := call.Args[1].(*ast.Ident); ok && strings.HasPrefix(id.Name, "c") {
+				if k, err := strconv.Atoi(id.Name[1:]); err == nil {
+					pm.Shown = append(pm.Shown, k)
+				}
+			}
 		}
 	}
 	if pm.Kind == "" {
@@ -819,13 +829,11 @@ func (p *c03progModel) coq() string {
 			var ss []string
 			for _, s := range g {
 				ss = append(ss, coqSpec(s))
-				for _, n := range s.Names {
-					if n != 0 {
-						shown = append(shown, fmt.Sprintf("%d%%N", n))
-					}
-				}
 			}
 			gs = append(gs, "["+strings.Join(ss, "; ")+"]")
+		}
+		for _, n := range p.Shown {
+			shown = append(shown, fmt.Sprintf("%d%%N", n))
 		}
 		return fmt.Sprintf("(PConst %s [%s] [%s])", coqBool(p.Kind == "const-global"), strings.Join(gs, "; "), strings.Join(shown, "; "))
 	case "var":
@@ -2290,6 +2298,13 @@ func c03ReprGrid() []c03cval {
 		q, _ := new(big.Rat).SetString(fl)
 		l = append(l, c03cval{Q: q})
 	}
+	// the rounding constants of c03Rounding
+	for _, k := range c02Konsts() {
+		if k.Val.IsInt() {
+			l = append(l, c03cval{Z: new(big.Int).Set(k.Val.Num())})
+		}
+		l = append(l, c03cval{Q: k.Val})
+	}
 	for _, s := range []string{"", "a", "héllo"} {
 		s := s
 		l = append(l, c03cval{S: &s})
@@ -2299,6 +2314,144 @@ func c03ReprGrid() []c03cval {
 		l = append(l, c03cval{B: &b})
 	}
 	return l
+}
+
+// ---------------------------------------------------------------- rounding to floating-point types (enumerated)
+
+// c03Rounding: constants chosen for float32 / float64 rounding (the list of harness/c02_const.go:
+// midpoints between adjacent floats and the midpoints perturbed by less and by more than half a
+// float64 ulp, integers above 2^24 / 2^53, values around the largest finite floats and around the
+// smallest denormals), in several spellings (decimal literal, hexadecimal floating-point literal,
+// constant expression), reaching a float32 / float64 destination through every declaration form:
+// typed constant, conversion, typed variable, printed conversion, conversion of a named untyped
+// constant, typed constant blocks with implicit repetition.
+func c03Rounding(thorough bool) []*c03prog {
+	var progs []*c03prog
+	mk := func(sp string) *cx {
+		x, err := parser.ParseExpr(sp)
+		if err != nil {
+			panic("c03Rounding: " + sp + ": " + err.Error())
+		}
+		e, err := fromAST(x)
+		if err != nil {
+			panic("c03Rounding: " + sp + ": " + err.Error())
+		}
+		return e
+	}
+	isLit := func(e *cx) bool {
+		for e.K == "un" && (e.Op == "-" || e.Op == "+") {
+			e = e.A
+		}
+		return e.K == "int" || e.K == "float"
+	}
+	one := func(kind, dt string, e *cx) *c03prog {
+		return &c03prog{Kind: kind, Groups: [][]c03spec{{{Names: []int{1}, Type: dt, Exprs: []*cx{e}}}}, Paren: []bool{false}}
+	}
+	conv := func(t string, e *cx) *cx { return &cx{K: "conv", T: t, A: e} }
+	form := func(f int, t string, e *cx) *c03prog {
+		switch f {
+		case 0:
+			return one("const-global", t, e)
+		case 1:
+			return one("const-local", "", conv(t, e))
+		case 2:
+			return &c03prog{Kind: "var", VarT: t, E: e}
+		case 3:
+			return &c03prog{Kind: "expr", E: conv(t, e)}
+		case 4:
+			return one("const-local", t, e)
+		case 5:
+			return one("const-global", "", conv(t, e))
+		case 6:
+			return &c03prog{Kind: "var", E: conv(t, e)}
+		}
+		// a named untyped constant, then its conversions
+		kind := "const-global"
+		if f == 8 {
+			kind = "const-local"
+		}
+		return &c03prog{Kind: kind, Hide: map[int]bool{1: true}, Paren: []bool{false, false, false},
+			Groups: [][]c03spec{
+				{{Names: []int{1}, Exprs: []*cx{e}}},
+				{{Names: []int{2}, Type: t, Exprs: []*cx{{K: "ref", Ref: 1}}}},
+				{{Names: []int{3}, Exprs: []*cx{conv(t, &cx{K: "ref", Ref: 1})}}}}}
+	}
+	litForms := []int{0, 1, 2, 3, 4, 5, 6, 7, 8}
+	exprForms := []int{3, 6, 7, 8, 0, 2} // the last two hand the declared type down the expression (region decl-type-propagation)
+	rot := 0
+	for _, t := range []string{"float32", "float64"} {
+		var blockLits []*cx
+		for ki, k := range c02Konsts() {
+			if len(k.Exprs) == 0 {
+				continue
+			}
+			finite := true
+			if t == "float32" {
+				f, _ := k.Val.Float32()
+				finite = !math.IsInf(float64(f), 0)
+			} else {
+				f, _ := k.Val.Float64()
+				finite = !math.IsInf(f, 0)
+			}
+			sensitive := t == "float32" && c02DoubleRoundingDiffers(k.Val)
+			for si, sp := range k.Exprs {
+				e := mk(sp)
+				forms := exprForms
+				if isLit(e) {
+					forms = litForms
+					if finite && si == 0 {
+						blockLits = append(blockLits, e)
+					}
+				}
+				switch {
+				case thorough || sensitive:
+					for _, f := range forms {
+						if (f == 0 || f == 2) && !isLit(e) && !finite {
+							continue // yaegi leaves an infinity in the typed declaration of an expression: outside the model
+						}
+						progs = append(progs, form(f, t, e))
+					}
+				case si == ki%len(k.Exprs):
+					for j := 0; j < 2; j++ {
+						f := forms[rot%len(forms)]
+						rot++
+						if (f == 0 || f == 2) && !isLit(e) && !finite {
+							continue
+						}
+						progs = append(progs, form(f, t, e))
+					}
+				}
+			}
+		}
+		// typed constant blocks: explicit type, conversion, implicit repetition
+		for i, n := 0, 0; i < len(blockLits); i, n = i+5, n+1 {
+			j := i + 5
+			if j > len(blockLits) {
+				j = len(blockLits)
+			}
+			var grp []c03spec
+			name := 1
+			for m, e := range blockLits[i:j] {
+				switch m % 3 {
+				case 0:
+					grp = append(grp, c03spec{Names: []int{name}, Type: t, Exprs: []*cx{e}}, c03spec{Names: []int{name + 1}})
+					name += 2
+				case 1:
+					grp = append(grp, c03spec{Names: []int{name}, Exprs: []*cx{conv(t, e)}})
+					name++
+				default:
+					grp = append(grp, c03spec{Names: []int{name}, Type: t, Exprs: []*cx{e}})
+					name++
+				}
+			}
+			kind := "const-global"
+			if n%2 == 1 {
+				kind = "const-local"
+			}
+			progs = append(progs, &c03prog{Kind: kind, Groups: [][]c03spec{grp}, Paren: []bool{true}})
+		}
+	}
+	return progs
 }
 
 func runC03(args []string) error {
@@ -2402,11 +2555,16 @@ func runC03(args []string) error {
 				region = "signed-bitlen"
 			}
 		}
+		if stream == "rounding" {
+			// constants meet a float type only through representableConst / convertConst (or, for a typed
+			// declaration of an expression, through convertConstantValue): no machine arithmetic on floats
+			facts.Discard = ""
+		}
 		if facts.Discard != "" {
 			sm.count("discarded:unmodelled")
 			return nil
 		}
-		if stream != "boundary" {
+		if stream != "boundary" && stream != "rounding" {
 			if !want(region) {
 				return nil
 			}
@@ -2419,6 +2577,11 @@ func runC03(args []string) error {
 	// enumerated boundary literals of every integer width, float limits, zero divisors, shift counts
 	for _, c := range prepare(c03Boundary()) {
 		if err := admit("boundary", c); err != nil {
+			return err
+		}
+	}
+	for _, c := range prepare(c03Rounding(*tier == "thorough")) {
+		if err := admit("rounding", c); err != nil {
 			return err
 		}
 	}
@@ -2543,9 +2706,13 @@ func runC03(args []string) error {
 			}
 		}
 	}
-	{
-		body := fmt.Sprintf("Definition cases : list repr_case := [\n%s\n].\nDefinition MY := Eval vm_compute in repr_mis_y cases.\nPrint MY.\nDefinition MG := Eval vm_compute in repr_mis_g cases.\nPrint MG.\n", strings.Join(rlines, ";\n"))
-		name := "cases_repr_0.v"
+	for i, k := 0, 0; i < len(rlines); i, k = i+450, k+1 {
+		j := i + 450
+		if j > len(rlines) {
+			j = len(rlines)
+		}
+		body := fmt.Sprintf("Definition cases : list repr_case := [\n%s\n].\nDefinition MY := Eval vm_compute in repr_mis_y cases.\nPrint MY.\nDefinition MG := Eval vm_compute in repr_mis_g cases.\nPrint MG.\n", strings.Join(rlines[i:j], ";\n"))
+		name := fmt.Sprintf("cases_repr_%d.v", k)
 		sm.CasesFiles = append(sm.CasesFiles, name)
 		if err := os.WriteFile(filepath.Join(*out, name), []byte(hdr+body), 0o644); err != nil {
 			return err
